@@ -340,6 +340,22 @@ class Program:
                     return (st["rv"]["adt"], st["rv"]["vn"])
         return None
 
+    def promoted_fields(self, op):
+        """integer constant fields of a promoted `&ADT { consts }` (e.g. `&(7..9)`), else None"""
+        if op.get("o") != "const":
+            return None
+        pid = op["k"].get("promoted")
+        if not pid or pid not in self.bodies:
+            return None
+        for bl in self.bodies[pid].blocks:
+            for st in bl["stmts"]:
+                if st["s"] == "assign" and st["rv"]["k"] == "agg" and st["rv"]["ak"] == "adt":
+                    ops = st["rv"]["ops"]
+                    if all(o["o"] == "const" and o["k"].get("c") == "int" for o in ops):
+                        return [int(o["k"]["v"]) for o in ops]
+                    return None
+        return None
+
     # ---- lookups -------------------------------------------------------------
     def find(self, qname):
         r = self.by_qname.get(qname, [])
